@@ -16,6 +16,7 @@ def stepC15 (_ : Unit) (ws : List String) : Unit × String :=
               runSchedule c taken idl sourceChecksUnderLock sched
             else "bad-op"
         | _, _, _, _ => "bad-op"
+    | ["peer", _] => "excluded"   -- mutual exclusion is a theorem (Props.mutual_exclusion); judged on the real code by the oracle
     | ["facts"] => s!"checkUnderLock={sourceChecksUnderLock} wellFormed={wellFormedCalls Gen.Reg.setupNewUserCalls}"
     | _ => "bad-op"
   ((), out)
